@@ -21,7 +21,12 @@ type Ctx struct {
 	nontrivial               []uint64
 	samples                  []any
 	wantSample               bool
+	transcript               uint64
+	hasTranscript            bool
 }
+
+// Transcript records the case's transcript hash for cross-process comparison.
+func (c *Ctx) Transcript(h uint64) { c.transcript, c.hasTranscript = h, true }
 
 // Fail records a violation with a witness (any JSON-serializable value).
 func (c *Ctx) Fail(v Violation, witness any) {
@@ -68,6 +73,7 @@ type Report struct {
 	Violations  []RepViolation `json:"violations"`
 	Hooks       bool           `json:"hooks"`
 	Done        bool           `json:"done"`
+	Transcripts map[int]uint64 `json:"transcripts,omitempty"`
 }
 
 // Witness is the replay file format.
@@ -145,6 +151,12 @@ func DrvMain(a *Args) int {
 		c := runCase(a, fn, i, len(rep.Samples) < 2)
 		rep.Evaluations++
 		rep.Cov.Merge(c.Cov)
+		if c.hasTranscript {
+			if rep.Transcripts == nil {
+				rep.Transcripts = map[int]uint64{}
+			}
+			rep.Transcripts[i] = c.transcript
+		}
 		for _, h := range c.nontrivial {
 			if !seen[h] {
 				seen[h] = true
